@@ -283,6 +283,25 @@ def special_shapes(tier):
     ] + sized_shapes()
 
 
+def scale_shapes():
+    """Larger than anything a unit test uses: lengths beyond the generator's defaults, a long
+    pinned string, ints beyond 2**64, ten keys, seven alternatives, nesting depth 5."""
+    a = S("int", ("min", 1))
+    ten = ("dict", tuple(("k%d" % i, i % 3 == 2, INT if i % 2 else STR) for i in range(10)), False)
+    deep5 = ("list", ("typed", ("dict", (("a", False, ("list", ("elems", (("dict", (("b", False, ("list", ("typed", a), (ln(1, 2),))),), False), E)), ())),), False)), (ln(1),))
+    return [
+        S("str", ln(60)), S("str", ("alphabet", "ab"), ln(40, 45)), S("str", call("x" * 70)),
+        S("str", ("contains", "needle"), ln(50, E)), S("str", ("regex", "[ab]{40}")),
+        S("int", ("min", 2 ** 64), ("max", 2 ** 64 + 3)), S("int", call(2 ** 70)), S("int", ("max", -2 ** 64)),
+        S("float", ("min", 1e300), ("max", 1.0000001e300)), S("float", call(1e-300)),
+        ("list", ("typed", INT), (ln(25),)), ("list", ("typed", S("bool")), (ln(40, E),)),
+        ("list", ("elems", tuple([a] * 6 + [E])), (ln(12),)), ("list", ("elems", tuple([E] + [STR] * 5)), ()),
+        ten, ("mkreq", ten, None), ("add", ten, ("dict", (("k3", True, a), ("new", False, a)), True)),
+        ("any", (a, STR, NONE, S("bool"), S("bytes"), S("float"), ("list", ("typed", a), ()))),
+        deep5,
+    ]
+
+
 def sized_shapes():
     """Bigger and deeper than the toy shapes: three concrete elements in each list form (so that
     first, middle and last differ), four keys, three and four alternatives, nesting depth 3-4, a
@@ -292,7 +311,7 @@ def sized_shapes():
     deep = ("dict", (("a", False, ("list", ("elems", (("dict", (("b", False, ("list", ("typed", a), ())),
                                                                  ("c", True, b)), False), E)), ())),
                      ("z", True, INT)), False)
-    return [
+    return scale_shapes() + [
         # `...: ...` declared first / in the middle of the key table (as `relaxed + other` leaves it)
         ("dict", four[1], "first"), ("dict", four[1], "mid"),
         ("dict", (("a", False, INT), ("b", True, STR)), "first"),
